@@ -382,6 +382,15 @@ def decompose(test, pol):
             for v in test.values:
                 out.extend(decompose(v, False))
             return out
+    if isinstance(test, ast.Compare) and len(test.ops) > 1 and pol:
+        # a < b < c  holds  ==  a < b  and  b < c
+        out, left = [], test.left
+        for op, right in zip(test.ops, test.comparators):
+            part = ast.copy_location(ast.Compare(left=left, ops=[op], comparators=[right]), test)
+            part.parent = getattr(test, "parent", None)
+            out.append((part, True))
+            left = right
+        return out
     return [(test, pol)]
 
 
